@@ -730,6 +730,25 @@ pub fn boxes_for(id: &str, quick: bool) -> Vec<Box_> {
                     // degenerate to the right answer with two entries)
                     v.push(mk("4 tasks T{4,5} C<=2 D{1,3,5}", ana, 4, vec![ArrSpec::Sporadic { t: 4, j: 0 }, ArrSpec::Sporadic { t: 5, j: 0 }],
                         if matches!(ana, Ana::EdfLp | Ana::EdfFl) { 1 } else { 2 }, &[1, 3, 5], false));
+                    // a never-arriving task anywhere in a list of four (whatever filters, zips or
+                    // indexes the other tasks must stay aligned)
+                    {
+                        let tp = |arr: ArrSpec, c: u64, dl: u64| TP { arr, c, segs: vec![c], nps: 1, dl };
+                        v.push(Box_ {
+                            name: "4 tasks from {Never, (7,0)C3D5, (5,0)C2D6, (9,0)C1D9, (7,0)C1D8}".into(),
+                            ana,
+                            ntasks: 4,
+                            per_task: vec![
+                                tp(ArrSpec::Never, 2, 7),
+                                tp(ArrSpec::Sporadic { t: 7, j: 0 }, 3, 5),
+                                tp(ArrSpec::Sporadic { t: 5, j: 0 }, 2, 6),
+                                tp(ArrSpec::Sporadic { t: 9, j: 0 }, 1, 9),
+                                tp(ArrSpec::Sporadic { t: 7, j: 0 }, 1, 8),
+                            ],
+                            strict_periodic: false,
+                            cap: 2_000_000,
+                        });
+                    }
                     v.push(mk("2 tasks T<=5 J<=2 C<=2 D{1,3,6}", ana, 2, sporadic_grid(5, 2), 2, &[1, 3, 6], false));
                     v.push(mk("2 tasks curves C<=2 D{2,5}", ana, 2, with_curves(sporadic_grid(3, 1)), 2, &[2, 5], false));
                 }
